@@ -968,16 +968,15 @@ def nontrivial(r):
 # plan of one run
 # =========================================================================================
 def plan(tier, prop):
-    """[(stream, number of models, option sets per model)] — fixed per tier."""
+    """[(stream, number of models, option sets per model)] — fixed per tier.  The small streams of the
+    (former and open) findings come first so that the time budget never cuts them off."""
     q = tier == "quick"
-    p = [("main", 60 if q else 1500, 3 if q else 6),
-         ("nonlinear", 12 if q else 300, 2 if q else 4),
-         ("contradiction", 4 if q else 40, 2),
-         ("iter", 5 if q else 40, 2)]
+    p = [("contradiction", 3 if q else 40, 2), ("iter", 3 if q else 40, 2)]
     if prop == "C15":
-        p += [("constexpr", 3 if q else 30, 2), ("delay", 3 if q else 30, 2), ("timealias", 3 if q else 20, 2),
-              ("affineinit", 3 if q else 30, 2), ("iteraffine", 3 if q else 30, 2),
-              ("iterparam", 3 if q else 30, 2)]
+        p += [("constexpr", 2 if q else 30, 2), ("delay", 2 if q else 30, 2), ("timealias", 2 if q else 20, 2),
+              ("affineinit", 2 if q else 30, 2), ("iteraffine", 2 if q else 30, 2), ("iterparam", 2 if q else 30, 2)]
+    p += [("nonlinear", 8 if q else 300, 2 if q else 4),
+          ("main", 40 if q else 1200, 3 if q else 5)]
     return p
 
 
@@ -1024,6 +1023,338 @@ def check_case(ctx, prop, case, drv=None, tie=None):
         suffix = (" [" + "; ".join(sy) + "]") if sy else ""
         for what, expected, observed in viol:
             ctx.violation(what + suffix, case, expected=expected, observed=observed, kind="input")
-    if tie is not None and drv is not None and case["stream"] in ("main", "nonlinear"):
+    if tie is not None and drv is not None and case["stream"] != "iteraffine":
         tie(ctx, prop, case, r, drv)
     return r, viol
+
+
+# =========================================================================================
+# tie to the Lean model: pass by pass, on the serialised real state
+# =========================================================================================
+MODELLED = {"resolve_parameter_values", "replace_parameter_expressions", "replace_constant_expressions",
+            "eliminate_constant_assignments", "replace_parameter_values", "replace_constant_values",
+            "eliminable_variable_expression", "factor_and_simplify_equations", "detect_aliases"}
+MODE_KEYS = ("expand_mx", "expand_vectors", "allow_derivative_aliases")
+
+
+def pass_active(options, p):
+    ev, em = bool(options.get("expand_vectors")), bool(options.get("expand_mx"))
+    if p == "expand_first":
+        return ev and em
+    if p == "expand_late":
+        return ev and not em
+    if p == "eliminable_variable_expression":
+        return options.get("eliminable_variable_expression") is not None
+    return bool(options.get(p))
+
+
+def prefix_options(options, k):
+    """Options under which `_simplify_once` runs exactly the passes with index < k of `options`."""
+    o = {}
+    for key in MODE_KEYS:
+        if key in options:
+            o[key] = options[key]
+    for i, p in enumerate(PASS_ORDER):
+        if p in ("expand_first", "expand_late"):
+            continue
+        if i < k and pass_active(options, p):
+            o[p] = options[p]
+    if k <= PASS_ORDER.index("expand_late") and pass_active(options, "expand_late"):
+        o["expand_vectors"] = False      # expand_first is inactive in this mode, nothing earlier reads the flag
+    return o
+
+
+def ser_value(v):
+    import casadi as ca
+    import numpy as np
+    if isinstance(v, ca.MX):
+        return ser_mx(v)
+    if isinstance(v, (list, tuple, np.ndarray, ca.DM)):
+        return ["nonscalar", []]
+    x = float(v)
+    if math.isnan(x):
+        return None
+    if math.isinf(x):
+        return ["const", "inf" if x > 0 else "-inf"]
+    return ["const", fstr(Fraction(x))]
+
+
+def ser_state(m):
+    def vs(lst, with_value):
+        return [{"n": v.symbol.name(), "v": ser_value(v.value) if with_value else None, "a": bool(v.aliases)} for v in lst]
+    rel = m.alias_relation
+    ar = {"al": sorted([k, sorted(v)] for k, v in rel._aliases.items()),
+          "cmap": [[k, c, int(s)] for k, (c, s) in rel._canonical_variables_map.items()],
+          "cv": sorted(rel._canonical_variables)}
+    import casadi as ca
+    return {"states": vs(m.states, False), "ders": vs(m.der_states, False), "algs": vs(m.alg_states, False),
+            "inputs": vs(m.inputs, False), "params": vs(m.parameters, True), "consts": vs(m.constants, True),
+            "eqs": [ser_mx(e) for e in m.equations], "inits": [ser_mx(e) for e in m.initial_equations],
+            "delays": [[ser_mx(ca.MX(d.expr)), ser_mx(ca.MX(d.duration))] for d in m.delay_arguments], "ar": ar}
+
+
+def state_ok(st):
+    trees = list(st["eqs"]) + list(st["inits"]) + [t for d in st["delays"] for t in d]
+    trees += [v["v"] for v in st["params"] + st["consts"] if v["v"] is not None]
+    return all(tree_ok(t) and _arity_ok(t) for t in trees)
+
+
+def _arity_ok(t):
+    if t[0] in ("sym", "const"):
+        return True
+    return len(t) in (2, 3) and all(_arity_ok(c) for c in t[1:])
+
+
+def observe_ar(m, univ):
+    rel = m.alias_relation
+    canon = {}
+    al = {}
+    for n in univ:
+        c, s = rel.canonical_signed(n)
+        canon[n] = [c, int(s)]
+        al[n] = sorted(rel.aliases(n))
+    return {"cv": sorted(rel.canonical_variables), "iter": sorted([c, sorted(a)] for c, a in rel),
+            "canon": canon, "aliases": al}
+
+
+def state_at(text, options, j, k):
+    """The real model after `j` complete `_simplify_once(options)` and the passes < k of the next one.
+    Returns (model, exception text or None, log lines of the last call)."""
+    m = fresh_model(text, options)
+    full = {kk: v for kk, v in options.items() if kk != "iterative_simplification"}
+    exc, log = None, []
+    with LogCapture() as lc:
+        try:
+            for _ in range(j):
+                m.simplify(dict(full))
+            if k > 0:
+                lc.h.stream.truncate(0)
+                lc.h.stream.seek(0)
+                m.simplify(prefix_options(options, k))
+        except Exception as e:  # noqa: BLE001
+            exc = "%s: %s" % (type(e).__name__, str(e)[:200])
+    log = lc.lines()
+    return m, exc, log
+
+
+def observe_alias_engine(m, options):
+    """What `_detect_alias` can learn from CasADi about each equation of `m`: the view it inspects
+    and the answers of `substitute(...).is_zero()` for the candidate pairs."""
+    import casadi as ca
+    sx_mode = bool(options.get("expand_vectors")) and not bool(options.get("expand_mx"))
+    params = {v.symbol.name() for v in m.parameters}
+    consts = {v.symbol.name() for v in m.constants}
+    gz, views = [], []
+    for i, eq in enumerate(m.equations):
+        if eq.numel() != 1:
+            continue
+        e = eq
+        if sx_mode:
+            s_mx = ca.symvar(eq)
+            f = ca.Function("tmp", s_mx, [eq]).expand()
+            s_sx = [ca.SX.sym(x.name(), *x.shape) for x in s_mx]
+            e = f.call(s_sx)[0]
+            views.append([i, ser_mx(e)])
+        deps = ca.symvar(e)
+        nonp = [s for s in deps if s.name() not in params and s.name() not in consts]
+        seen = set()
+        for d in (deps, nonp):
+            if len(d) != 2:
+                continue
+            key = (d[0].name(), d[1].name())
+            if key in seen:
+                continue
+            seen.add(key)
+            gz.append([i, key[0], key[1], False, bool(ca.substitute(e, d[0], d[1]).is_zero())])
+            gz.append([i, key[0], key[1], True, bool(ca.substitute(e, d[0], -1 * d[1]).is_zero())])
+    return gz, views
+
+
+def lean_opts(options, m_pre):
+    o = {k: bool(options.get(k)) for k in BOOL_FLAGS + ["reduce_affine_expression", "iterative_simplification"]}
+    o["allow_derivative_aliases"] = bool(options.get("allow_derivative_aliases", True))
+    if options.get("eliminable_variable_expression") is not None:
+        rx = re.compile(options["eliminable_variable_expression"])
+        allv = [v.symbol.name() for v in list(m_pre.states) + list(m_pre.alg_states)]
+        o["matched"] = [n for n in allv if rx.match(n)]
+    else:
+        o["matched"] = None
+    return o
+
+
+def _env_points(rng, names, n=3):
+    pts = []
+    for _ in range(n):
+        pts.append([[nm, fstr(Fraction(rng.choice([1, 2, 3, 5, 7, -1, -2, -3, -5, 4, -4, 6]), rng.choice([1, 1, 2])))]
+                    for nm in sorted(names)])
+    return pts
+
+
+def _eval_lean(drv, trees, env):
+    ans = drv.ask({"op": "simplify.eval", "trees": trees, "env": env})
+    if not ans.get("ok"):
+        raise HarnessError("model driver rejected eval: %s" % ans)
+    return ans["values"]
+
+
+def _names(vs):
+    return [v["n"] for v in vs]
+
+
+def compare_states(drv, rng, model_st, real_st, real_m, what):
+    """Differences between the model's outcome of a pass and the real outcome (both serialised)."""
+    diffs = []
+    for g in ("states", "ders", "algs", "inputs", "params", "consts"):
+        if _names(model_st[g]) != _names(real_st[g]):
+            diffs.append("%s: model %s, real %s" % (g, _names(model_st[g]), _names(real_st[g])))
+        elif [v["a"] for v in model_st[g]] != [v["a"] for v in real_st[g]]:
+            diffs.append("%s aliases-attribute flags: model %s, real %s" % (g, [v["a"] for v in model_st[g]], [v["a"] for v in real_st[g]]))
+    if diffs:
+        return diffs
+    pairs = []
+    for g in ("eqs", "inits"):
+        if len(model_st[g]) != len(real_st[g]):
+            diffs.append("%s: model keeps %d, real keeps %d" % (g, len(model_st[g]), len(real_st[g])))
+        else:
+            pairs += [(g, i, a, b) for i, (a, b) in enumerate(zip(model_st[g], real_st[g]))]
+    if len(model_st["delays"]) != len(real_st["delays"]):
+        diffs.append("delay arguments: model %d, real %d" % (len(model_st["delays"]), len(real_st["delays"])))
+    else:
+        for i, (a, b) in enumerate(zip(model_st["delays"], real_st["delays"])):
+            pairs += [("delay-expr", i, a[0], b[0]), ("delay-duration", i, a[1], b[1])]
+    for g in ("params", "consts"):
+        for i, (a, b) in enumerate(zip(model_st[g], real_st[g])):
+            if (a["v"] is None) != (b["v"] is None):
+                diffs.append("value of %s: model %s, real %s" % (a["n"], a["v"], b["v"]))
+            elif a["v"] is not None:
+                pairs.append(("value:" + a["n"], i, a["v"], b["v"]))
+    if diffs:
+        return diffs
+    names = set()
+    for _, _, a, b in pairs:
+        names.update(tree_syms(a))
+        names.update(tree_syms(b))
+    for env in _env_points(rng, names):
+        va = _eval_lean(drv, [p[2] for p in pairs], env)
+        vb = _eval_lean(drv, [p[3] for p in pairs], env)
+        for (g, i, a, b), x, y in zip(pairs, va, vb):
+            if x != y:
+                diffs.append("%s[%d] differs at an exact point: model %s = %s, real %s = %s" % (g, i, a, x, b, y))
+        if diffs:
+            return diffs[:4]
+    # the recorded alias relation
+    univ = sorted(set(model_st["ar"]["canon"].keys()))
+    real_ar = observe_ar(real_m, univ)
+    for k in ("cv", "iter", "canon", "aliases"):
+        if model_st["ar"][k] != real_ar[k]:
+            diffs.append("alias relation %s: model %s, real %s" % (k, model_st["ar"][k], real_ar[k]))
+    return diffs
+
+
+EXC_KINDS = {"KeyError": "KeyError", "AssertionError": "AssertionError", "requires-expand-mx": "Exception",
+             "duplicate-symbol": "RuntimeError", "nan-constant": None}
+
+
+def tie_case(ctx, prop, case, r, drv):
+    """Pass-by-pass correspondence for one case (scalar models, modelled passes)."""
+    opts = case["options"]
+    text = case["text"]
+    iterative = bool(opts.get("iterative_simplification"))
+    act = [p for p in PASS_ORDER if pass_active(opts, p)]
+    if not act:
+        ctx.count("tie:no-pass-enabled")
+        return
+    left = 0
+    for j in range(4 if iterative else 1):
+        pre_m, pre_exc, _ = state_at(text, opts, j, 0)
+        if pre_exc is not None:
+            ctx.count("tie:stopped-at-real-exception")
+            return
+        for p in act:
+            k = PASS_ORDER.index(p)
+            post_m, post_exc, post_log = state_at(text, opts, j, k + 1)
+            ctx.count("tie-pass:" + p)
+            if p in MODELLED:
+                pre_st = ser_state(pre_m)
+                if hasattr(pre_m, "_states_vector") or not state_ok(pre_st):
+                    ctx.count("tie:state-outside-model")
+                    return
+                req = {"op": "simplify.pass", "pass": p, "state": pre_st, "opts": lean_opts(opts, pre_m)}
+                if p == "detect_aliases":
+                    req["gzero"], req["views"] = observe_alias_engine(pre_m, opts)
+                ans = drv.ask(req)
+                if not ans.get("ok"):
+                    raise HarnessError("model driver rejected %s: %s" % (p, str(ans)[:300]))
+                sub = dict(case, iteration=j, **{"pass": p})
+                if ans["raised"] is not None:
+                    kind = ans["raised"]["kind"]
+                    if kind == "unsupported":
+                        ctx.count("tie:unsupported:" + ans["raised"].get("arg", ""))
+                        return
+                    want = EXC_KINDS.get(kind)
+                    got = post_exc.split(":")[0] if post_exc else None
+                    if want != got:
+                        ctx.disagreement("simplify.pass:" + p, sub, model=ans["raised"], impl=post_exc)
+                    else:
+                        ctx.count("tie:agreed-exception:" + kind)
+                    return
+                if post_exc is not None:
+                    ctx.disagreement("simplify.pass:" + p, sub, model="no exception", impl=post_exc)
+                    return
+                post_st = ser_state(post_m)
+                if not state_ok(post_st):
+                    ctx.count("tie:state-outside-model")
+                    return
+                diffs = compare_states(drv, ctx.rng, ans["state"], post_st, post_m, p)
+                real_warn = any(any(w in l for w in FAILURE_WARNINGS) for l in post_log)
+                if bool(ans["state"]["warned"]) != real_warn and p != "detect_aliases":
+                    diffs.append("iteration-limit warning: model %s, real %s" % (ans["state"]["warned"], real_warn))
+                real_dang = sorted(set(n for names in dangling(post_m).values() for n in names))
+                if ans["state"]["dangling"] != real_dang:
+                    diffs.append("dangling symbols: model %s, real %s" % (ans["state"]["dangling"], real_dang))
+                if ans["state"]["n_unknowns"] != numel(post_m.states) + numel(post_m.alg_states) or \
+                        ans["state"]["n_eqs"] != len(post_m.equations):
+                    diffs.append("counts: model %d/%d, real %d/%d" % (ans["state"]["n_unknowns"], ans["state"]["n_eqs"],
+                                                                     numel(post_m.states) + numel(post_m.alg_states), len(post_m.equations)))
+                if diffs:
+                    ctx.disagreement("simplify.pass:" + p, sub, model=diffs[:4], impl=None)
+                    return
+                ctx.count("tie:pass-agreed")
+            else:
+                if post_exc is not None:
+                    ctx.count("tie:stopped-at-real-exception")
+                    return
+                if p == "reduce_affine_expression":
+                    ctx.count("tie:observed-only:" + p)
+                    pre_m = post_m
+                    continue
+                # observed renormalisation (vector expansion of a scalar model, SX round trip): value-preserving?
+                a, b = ser_state(pre_m), ser_state(post_m)
+                if any(_names(a[g]) != _names(b[g]) for g in ("states", "ders", "algs", "inputs", "params", "consts")):
+                    ctx.count("tie:vector-expansion-renamed-variables")    # property C18's business
+                    return
+                if state_ok(a) and state_ok(b):
+                    diffs = compare_states(drv, ctx.rng, dict(a, ar=_lean_ar(drv, a)), b, post_m, p)
+                    if diffs:
+                        ctx.disagreement("observed-pass:" + p, dict(case, iteration=j, **{"pass": p}), model=diffs[:4], impl=None)
+                        return
+                    ctx.count("tie:observed-pass-value-preserving")
+            pre_m = post_m
+        n_alg = len(pre_m.alg_states)
+        if iterative and left != n_alg:
+            left = n_alg
+            continue
+        break
+    # the chained single passes must end where the real run ended
+    if r.exc is None and r.model is not None and not hasattr(r.model, "_states_vector"):
+        if categories(pre_m) != r.cat or len(pre_m.equations) != len(r.model.equations):
+            if not (iterative and j >= 3):
+                ctx.disagreement("simplify.loop", case, model=[categories(pre_m), len(pre_m.equations)],
+                                 impl=[r.cat, len(r.model.equations)])
+
+
+def _lean_ar(drv, st):
+    ans = drv.ask({"op": "simplify.describe", "state": st})
+    if not ans.get("ok"):
+        raise HarnessError("model driver rejected describe: %s" % str(ans)[:300])
+    return ans["state"]["ar"]
